@@ -88,7 +88,7 @@ def run(ctx):
     ctx.assume('-0.4 at 0.55um within 4 ulp (the code computes (-0.4*chi)/chi)',
                'queries within 1e-12 relative of a table end: inside/outside is a don\'t-care; node queries are made in the table\'s own unit',
                'tables not covering V or not increasing are outside the quantifier')
-    ctx.require_events('roundtrip:table-used-further-by-the-caller', 'query:same-length-and-ends-as-table', 'Extinction.get_av:post', 'pair:chi-scaling', 'pair:units', 'roundtrip:pickle', 'roundtrip:table',
+    ctx.require_events('table:first-node-is-V', 'roundtrip:table-used-further-by-the-caller', 'query:same-length-and-ends-as-table', 'Extinction.get_av:post', 'pair:chi-scaling', 'pair:units', 'roundtrip:pickle', 'roundtrip:table',
                        'roundtrip:file', 'at-V', 'history:chi-reassigned', 'history:table-replaced', 'history:wav-reassigned', 'query:scalar', 'V-on-node', 'roundtrip:file-defaults', 'history:chi-scaled-with-augmented-assignment')
     ctx.require_regimes('opacities:many-decades-from-1', 'rows=2', 'rows>=100', 'query:outside', 'query:node', 'query:inside')
     n_tab = 150 if ctx.quick else 4000
@@ -162,6 +162,38 @@ def run(ctx):
             ctx.violation('get_av:not-normalised-at-V', 'pattern at 0.55 micron is not -0.4', dict(wit, got=gv))
         ctx.case(('tab', it, ctx.shard), nontrivial=True, sample=dict(wit, at_V=gv) if n <= 4 else None)
 
+        # a table that *starts* at V (an optical-to-infrared law), tabulated natively in Angstrom / nm / micron with its first node on
+        # 5500 A / 550 nm / 0.55 micron exactly: chi(V) is the first node's opacity (a query at V itself sits on the table end, where
+        # inside/outside is the don't-care of the assumptions; everything inside is judged)
+        if it % 6 == 1:
+            unV, Vnat = [('AA', 5500.0), ('nm', 550.0), ('um', 0.55)][(it // 6) % 3]
+            unitV, facV = LEN[unV]
+            keep_ = tw_um > 0.7
+            if keep_.sum() >= 1:
+                tvV = np.concatenate([[Vnat], tw_um[keep_] / facV])
+                chiV = np.concatenate([[float(np.max(chi_native)) * 1.5], chi_native[keep_]])
+                lawV = Extinction()
+                lawV.wav = tvV * unitV
+                lawV.chi = chiV * cunit
+                twV_um = tvV * facV
+                qV_um = gen.loguniform(rng, 0.56, twV_um[-1] * 0.999, 8)
+                ctx.event('table:first-node-is-V')
+                for qn in ('um', 'nm', 'AA'):
+                    qunit, qfac = LEN[qn]
+                    try:
+                        gV = np.asarray(lawV.get_av((qV_um / qfac) * qunit), float)
+                        gN = np.asarray(lawV.get_av(tvV * unitV), float)
+                    except Exception as exc:
+                        ctx.raised(exc, 'get_av:raised', 'get_av raised for a table whose first node is V: %r' % (exc,), {'table_unit': unV, 'table_wav': tvV})
+                        break
+                    refV = -0.4 * np.interp(qV_um, twV_um, chiV) / chiV[0]
+                    refN = -0.4 * chiV / chiV[0]
+                    if np.any(~np.isfinite(gV)) or np.any(np.abs(gV - refV) > (rel_tol(twV_um, chiV, qV_um, 1e-11) + 1e-10) * np.abs(refV)) or \
+                            np.any(~np.isfinite(gN)) or np.any(np.abs(gN - refN) > 1e-11 * np.abs(refN)):
+                        ctx.violation('get_av:wrong-value:table-starting-at-V', 'pattern differs from -0.4 chi/chi_V for a table whose first node is 0.55 micron',
+                                      {'table_unit': unV, 'table_wav': tvV, 'table_chi': chiV, 'query_unit': qn, 'query_um': qV_um, 'got': gV, 'expected': refV,
+                                       'got_at_nodes': gN, 'expected_at_nodes': refN})
+                        break
         # refusals
         for badq in (qs_um, list(qs_um), 1.0, qs_um * u.Hz):
             try:           # (refusal of non-length input is not part of the statement: observed, not judged)
